@@ -313,8 +313,13 @@ func genMyRelayCase(t *rapid.T) MyCase {
 	caps := c.ClientCaps
 	n := rapid.IntRange(1, 7).Draw(t, "nops")
 	huge := false
-	type prep struct{ op, nparams int; cols []MyCol }
+	type prep struct {
+		op, nparams int
+		cols        []MyCol
+	}
 	var preps []prep
+	executed := map[int]bool{}
+	lastTypes := map[int][]MyParam{}
 	for i := 0; i < n; i++ {
 		l := fmt.Sprintf("op%d", i)
 		kinds := []string{"query", "query", "query", "query", "prepare", "prepare", "prepare", "ping", "initdb", "stat", "resetconn", "setoption"}
@@ -386,16 +391,24 @@ func genMyRelayCase(t *rapid.T) MyCase {
 		case "execute":
 			p := preps[rapid.IntRange(0, len(preps)-1).Draw(t, l+".stmt")]
 			op.Stmt = p.op
-			op.NewParams = rapid.IntRange(0, 3).Draw(t, l+".newparams") > 0
+			// the types are sent with the first execution at least (a server has nothing to interpret the values with otherwise)
+			op.NewParams = rapid.IntRange(0, 3).Draw(t, l+".newparams") > 0 || !executed[p.op]
+			executed[p.op] = true
 			for j := 0; j < p.nparams; j++ {
 				pl := fmt.Sprintf("%s.p%d", l, j)
 				typ := rapid.SampledFrom([]byte{mysess.TypeVarString, mysess.TypeBlob, mysess.TypeLong, mysess.TypeLongLong, mysess.TypeTiny, mysess.TypeDouble, mysess.TypeNull, mysess.TypeString, mysess.TypeDatetime}).Draw(t, pl+".type")
+				uns := rapid.Bool().Draw(t, pl+".uns")
+				if !op.NewParams {
+					// types that are not sent are those of the previous execution
+					typ, uns = lastTypes[p.op][j].Type, lastTypes[p.op][j].Unsigned
+				}
 				cell := genRelayCell(t, pl, typ, true, !huge)
 				if cell.B.N >= 1<<24-2 {
 					huge = true
 				}
-				op.Params = append(op.Params, MyParam{Type: typ, Unsigned: rapid.Bool().Draw(t, pl+".uns"), Null: cell.Null, B: cell.B})
+				op.Params = append(op.Params, MyParam{Type: typ, Unsigned: uns, Null: cell.Null, B: cell.B})
 			}
+			lastTypes[p.op] = op.Params
 			op.Resp.Kind = rapid.SampledFrom([]string{"ok", "err", "sets", "sets", "sets", "sets"}).Draw(t, l+".resp")
 			if len(p.cols) == 0 && op.Resp.Kind == "sets" {
 				op.Resp.Kind = "ok"
@@ -530,6 +543,9 @@ func (w *world) dbValue(cell MyCell, typ byte, binary bool) mysess.Value {
 	if binary {
 		if wd := mysess.BinaryWidth(typ); wd >= 0 {
 			b = fit(b, wd)
+			if typ == mysess.TypeFloat || typ == mysess.TypeDouble {
+				b[wd-1] &^= 0x40 // a finite number: MySQL stores neither NaN nor infinities
+			}
 		}
 	}
 	if b == nil {
@@ -800,6 +816,9 @@ func (c MyCase) script(w *world) []turn {
 				b := p.B.Bytes()
 				if wd := mysess.BinaryWidth(p.Type); wd >= 0 {
 					b = fit(b, wd)
+					if p.Type == mysess.TypeFloat || p.Type == mysess.TypeDouble {
+						b[wd-1] &^= 0x40
+					}
 				}
 				e.Params = append(e.Params, mysess.Param{Type: p.Type, Unsigned: p.Unsigned, Null: p.Null, B: b})
 			}
@@ -1120,7 +1139,7 @@ func checkMyOnce(c MyCase) (hx.Vs, []string, bool) {
 		}
 		return b
 	}}
-	if c.Schema != nil {
+	if c.Schema != nil && !replaying {
 		// open finding: COM_STMT_EXECUTE that does not re-send the parameter types (new-params-bound flag 0, what
 		// libmysqlclient does on every re-execution) makes the handler panic when the statement has configured
 		// columns. Excluded exactly: such executions are played with the types re-sent.
@@ -1133,7 +1152,7 @@ func checkMyOnce(c MyCase) (hx.Vs, []string, bool) {
 		}
 		c.Ops = ops
 	}
-	if c.Schema != nil && c.hasEmptyIntCell() && R.IsKnown(sigEmptyInt) {
+	if c.Schema != nil && !replaying && c.hasEmptyIntCell() && R.IsKnown(sigEmptyInt) {
 		// open finding: an empty (not NULL) value in a column configured as int32/int64 is sent as an empty
 		// length-encoded string under a column definition re-typed to LONG/LONGLONG (binary protocol). Excluded
 		// exactly: such cells are played as NULL.
@@ -1162,7 +1181,7 @@ func checkMyOnce(c MyCase) (hx.Vs, []string, bool) {
 		c.Ops = ops
 	}
 	turns := c.script(wd)
-	timeout := 6 * time.Second
+	timeout := 2500 * time.Millisecond
 	if isHugeCase(turns) {
 		timeout = 60 * time.Second
 		cl.add("multi-mib-payload")
@@ -1228,6 +1247,16 @@ func checkMyOnce(c MyCase) (hx.Vs, []string, bool) {
 // breakShape names the rare input shape present where a session broke (the signature names the class of input,
 // not the packet at which the loss became visible); "" = nothing special, the stage label is used.
 func (c MyCase) breakShape(opIdx int) string {
+	if opIdx < 0 {
+		return c.connectionPhaseShape()
+	}
+	if opIdx >= len(c.Ops) {
+		return ""
+	}
+	return c.opShape(opIdx)
+}
+
+func (c MyCase) connectionPhaseShape() string {
 	switch low := byte(c.ClientCaps); low {
 	case mysess.ComQuit, mysess.ComQuery, mysess.ComStmtPrepare, mysess.ComStmtExecute, mysess.ComStmtReset:
 		return fmt.Sprintf("handshake-response-starts-with-command-byte-0x%02x", low)
@@ -1247,9 +1276,10 @@ func (c MyCase) breakShape(opIdx int) string {
 			return fmt.Sprintf("auth-data-starts-with-command-byte-0x%02x", first)
 		}
 	}
-	if opIdx < 0 || opIdx >= len(c.Ops) {
-		return ""
-	}
+	return ""
+}
+
+func (c MyCase) opShape(opIdx int) string {
 	op := c.Ops[opIdx]
 	caps := c.effCaps()
 	proto := "text"
@@ -1363,7 +1393,7 @@ func (c MyCase) classes(cl classSet) {
 
 func TestMySQLRelay(t *testing.T) {
 	R.Rule("TestMySQLRelay", "a MySQL session through acra's real proxy (no column configured, no firewall rule) between a scripted client and a scripted server, both driven by the reference codec: handshake v10 with generated capability sets (client archetypes libmysql / connector / minimal / arbitrary subset of what the server offers; compression, TLS and layout-changing flags never negotiated), authentication (OK, auth switch incl. empty answer, caching_sha2 fast / full, ERR), then 1-7 commands: COM_QUERY with OK / ERR / 1-3 text result sets (0-4 rows, NULLs, empty strings, column types of every kind, value lengths at 250/251, 65535/65536, thorough: 2^24-1/2^24) / LOCAL INFILE, COM_STMT_PREPARE / EXECUTE (types sent or not, NULL parameters) with binary result sets / CLOSE / RESET / SEND_LONG_DATA, COM_PING / INIT_DB / STATISTICS / RESET_CONNECTION / SET_OPTION / QUIT; with and without CLIENT_DEPRECATE_EOF and CLIENT_SESSION_TRACK. Oracle: bytes sent by the client == bytes received by the server and bytes sent by the server == bytes received by the client, in order; no panic; the session is not closed or wedged. Non-trivial: at least one command after the connection phase")
-	hx.Checks(70, 600)
+	hx.Checks(500, 2000)
 	rapid.Check(t, func(rt *rapid.T) {
 		c := genMyRelayCase(rt)
 		vs, classes, nt := CheckMy(c)
